@@ -19,6 +19,10 @@ CLAIMED = {
    text='Coquelicot is_derive theorems, for all parameters and points, over the function bodies REGENERATED from transform.py on every run (fail-closed ast translator): first and second derivatives of the eight closed-form families, zero off-coordinate partials, gradient/Hessian assembly; the translator is validated on every run against the real methods; central-difference side check for all nine families incl. Bspline.',
    note='Trusted: Coq kernel; stdlib real-number axioms (sig_forall_dec, sig_not_dec), functional_extensionality_dep, classic (via Reals/Coquelicot); the translator; scipy legendre/BSpline and NumPy ufunc semantics as oracles. Bspline and vectorised evaluation are side-check only.',
    technique='translator-regenerated model + Coq/Coquelicot derivative proofs', design='6 C14'),
+ 'C15': dict(
+   text='Coq theorems for every number of modes, functions per mode and snapshots: entry (k_1..k_p, j) of basis_decomposition (= coordinate_major / function_major with their tables) is the product of the selected basis functions at snapshot j; single_core is the corresponding core; gram equals the sum over all multi-indices of products. Tied to /repo by exact differential execution on integer data; float side check with explicit loops; hocur side check only.',
+   note='PARTIAL: hocur (cross approximation) is outside the proof. Trusted: Coq kernel, harness (it computes the basis-evaluation tables from the real Function objects), rounding not modelled.',
+   technique='Coq proof (diagonal-in-snapshot chain collapse) + exact model-vs-code correspondence', design='6 C15'),
 }
 NOT_YET = {}
 ALL = ['C%02d' % i for i in range(1, 21)]
